@@ -386,6 +386,12 @@ def d2_faithful(chk, F):
                 s_arg, off = arg_expr(f, t, 0), arg_expr(f, t, 1)
             else:
                 continue
+            # a fragment's text is a piece of the INPUT, never a literal (a soft break is one or two bytes long in the source)
+            lits = [n_[1].get("str") for n_ in walk(s_arg) if n_[0] == "const" and isinstance(n_[1], dict) and "str" in n_[1]]
+            if lits and not ck.endswith("Text::from_str"):
+                chk.fail("C04.D2-faithful", f"{region_of(k)}|{ck.rsplit('::', 1)[-1]}|literal", f.where(b),
+                         f"a text fragment is built from the string literal {lits[0]!r} instead of the input slice at its span: its content would differ from the input (e.g. CRLF)")
+                continue
             # find the slicing: Index::index(input, Range{start, ..}) or index(input, span.range())
             lower = None
             for nnode in walk(s_arg):
@@ -410,7 +416,7 @@ def d2_faithful(chk, F):
             chk.expect(ok, "C04.D2-faithful", f"{region_of(k)}|{ck.rsplit('::', 1)[-1]}", f.where(b),
                        f"a text fragment is created from the input slice starting at `{full(lower)[:70]}` but is given the offset `{full(off)[:70]}`: its content would not equal the input at its span",
                        sample=f"{f.where(b)}: slice lower bound and fragment offset are the same value ({full(off)[:50]})")
-    chk.floor("C04.D2-faithful", "fragment constructions from input slices", n, 5)
+    chk.floor("C04.D2-faithful", "fragment constructions from input slices", n, 2)   # 5 on the pinned tree; 4 of them are repetitions inside BlockParser::text
     # front matter: yaml_text = &input[yaml_start..yaml_end], yaml_offset = yaml_start (same for the cooklang part)
     for ff, i, s, d in aggregates(F, "cooklang::parser::frontmatter::parse_frontmatter", "FrontMatterSplit"):
         for txt, off in (("yaml_text", "yaml_offset"), ("cooklang_text", "cooklang_offset")):
